@@ -22,7 +22,7 @@ RULE = ("real SerialGateway / TCPGateway with real poll thread, reader thread an
         "(thread role, function, line) switch sequences")
 TIERS = {
     "quick": {"runs": 3500, "max_wall": 240, "minimise_s": 25, "chunk": 100},
-    "thorough": {"runs": 300000, "max_wall": 3000, "minimise_s": 60, "chunk": 500},
+    "thorough": {"runs": 150000, "max_wall": 3000, "minimise_s": 60, "chunk": 500},
 }
 FAULT_KINDS = ["read error", "user disconnect", "stop", "read error + reconnect", "peer close (tcp)", "peer reset (tcp)"]
 REAL = ["mysensors.transport", "mysensors.task (SyncTasks._poll_queue)", "mysensors.gateway_serial.sync_connect", "mysensors.gateway_tcp (TCPTransport, sync_connect)",
